@@ -185,7 +185,13 @@ func (cs *ContractSet) ParseFile(path string, pkgPath string) {
 				c.Props = strings.Split(text[1:i], ",")
 				text = strings.TrimSpace(text[i+1:])
 			}
-			text = cs.expandMacros(text, 0)
+			for pass := 0; pass < 6; pass++ {
+				nt := cs.expandMacros(text, 0)
+				if nt == text {
+					break
+				}
+				text = nt
+			}
 			if i := strings.LastIndex(text, " using "); i >= 0 {
 				for _, u := range strings.Split(text[i+7:], ",") {
 					c.Using = append(c.Using, strings.TrimSpace(u))
